@@ -471,6 +471,20 @@ def scale_trees():
         g = decorate(sh, 1)
         g["ns"] = [["p", "urn:u1"], ["q", "urn:u1"], ["r", "urn:u2"]]          # two prefixes for one URI, both in use
         out.append((f"scale:aliased-prefixes/{gtree.gsize(sh)}-{len(out)}", g))
+    # a prefix the root does not bind, declared by every element below the root separately (siblings and nested alike)
+    for sh in gtree.shapes_upto(4):
+        if gtree.gsize(sh) < 3:
+            continue
+        for pre in (False, True):
+            g = decorate(sh, 0)
+            for i, (path, n) in enumerate(gtree.walk(g)):
+                n["name"] = NAMES[i % len(NAMES)]
+                if path:
+                    n["ns_pre" if pre else "ns"] = [["x", "urn:u1"]]
+                    n["prefix"] = "x"
+                    n["extras"] = [["x:kind", f"k{i}"]]
+            g["ns"] = [["r", "urn:u2"]]
+            out.append((f"scale:declared-below-root/{gtree.gsize(sh)}-{len(out)}", g))
     for k in (5, 9, 14):
         g = decorate(gtree.shapes_upto(3)[-1], 1)
         for i, (path, n) in enumerate(gtree.walk(g)):
